@@ -489,6 +489,26 @@ func builtin(x Value, fn string, args []Value) Res {
 	if strings.HasPrefix(fn, "nosuch") {
 		return errf("unknown function " + fn)
 	}
+	// a few contract-trivial functions with arguments
+	switch {
+	case x.K == KStr && fn == "contains" && len(args) == 1 && args[0].K == KStr:
+		return okv(BoolV(strings.Contains(x.S, args[0].S)))
+	case x.K == KArr && fn == "contains" && len(args) == 1 && args[0].K != KArr && args[0].K != KObj && args[0].K != KFloat:
+		for _, el := range x.Arr {
+			if el.K == args[0].K && el.Equal(args[0]) {
+				return okv(BoolV(true))
+			}
+		}
+		return okv(BoolV(false))
+	case x.K == KBool && fn == "then" && (len(args) == 1 || len(args) == 2):
+		if x.B {
+			return okv(args[0])
+		}
+		if len(args) == 2 {
+			return okv(args[1])
+		}
+		return okv(NilV())
+	}
 	if len(args) != 0 {
 		return unspec("call with arguments")
 	}
